@@ -468,7 +468,7 @@ type ContractFile struct {
 }
 
 var clauseKeywords = map[string]bool{
-	"pred": true, "func": true, "const": true, "ghost": true, "fn": true, "iface": true, "ext": true, "lemma": true,
+	"pred": true, "func": true, "const": true, "ghost": true, "fn": true, "iface": true, "ext": true, "lemma": true, "lockinv": true,
 	"requires": true, "ensures": true, "label": true, "assigns": true, "panics": true, "loop": true,
 	"trusted": true, "pure": true, "property": true, "bounded": true, "params": true, "results": true, "use": true,
 }
@@ -530,10 +530,10 @@ func parseContractFile(path, pkg string) (*ContractFile, error) {
 				return nil, fail(c, fmt.Errorf("ghost var NAME KIND expected"))
 			}
 			cf.Ghosts[f[1]] = &GhostVar{Name: f[1], Kind: f[2]}
-		case "fn", "iface", "ext", "lemma":
+		case "fn", "iface", "ext", "lemma", "lockinv":
 			key := strings.TrimSpace(c.text)
 			cur = &FnSpec{Key: key, Kind: c.kw, Pkg: pkg, Loops: map[int]*LoopSpec{}, Line: c.line}
-			if c.kw == "lemma" || c.kw == "ext" || c.kw == "iface" {
+			if c.kw == "lemma" || c.kw == "ext" || c.kw == "iface" || c.kw == "lockinv" {
 				// NAME(p1, p2) form gives parameter names
 				if i := strings.Index(key, "("); i > 0 && strings.HasSuffix(key, ")") && !strings.HasPrefix(key, "(") {
 					ps := strings.Split(key[i+1:len(key)-1], ",")
